@@ -240,6 +240,19 @@ def gen_cases(rng, tier):
         den = poly_str([v for v in a] + [F(0)] * (L + 1 - len(a)))
         kw = {'causal': True} if i % 2 else {}
         add({'kind': 'izt', 'H': '(%s)/(%s)' % (num, den), 'N': 9, 'b': [fs(v) for v in b], 'a': [fs(v) for v in a], 'kw': kw})
+    # K' conjugate pole pairs / repeated poles of high multiplicity through H(n), impulse_response(), step_response()
+    for i in range(10 * k):
+        b, a, Hf = gen_multi_pole(rng, i)
+        L = max(len(a), len(b)) - 1
+        Hx = '(%s)/(%s)' % (poly_str(b + [F(0)] * (L + 1 - len(b))), poly_str(a + [F(0)] * (L + 1 - len(a))))
+        kw = [{}, {'pairs': False}, {'causal': True}, {'causal': True, 'pairs': False}][(i // 6) % 4]
+        add({'kind': 'izt', 'H': Hf if i % 2 == 0 else Hx, 'N': 14, 'b': [fs(v) for v in b], 'a': [fs(v) for v in a], 'kw': kw})
+    for i in range(5 * k):
+        b, a, Hf = gen_multi_pole(rng, i)
+        add({'kind': 'impulse', 'b': [fs(v) for v in b], 'a': [fs(v) for v in a], 'N': 14})
+    for i in range(4 * k):
+        b, a, Hf = gen_multi_pole(rng, 3 * i) if i % 2 == 0 else gen_pole_filter(rng, i) + (None,)
+        add({'kind': 'step', 'b': [fs(v) for v in b], 'a': [fs(v) for v in a], 'N': 12})
     # L DFT
     for i in range(20 * k):
         N = [1, 2, 4, 3, 4, 5, 2, 6, 4, 8][i % 10]
@@ -298,6 +311,70 @@ def gen_pole_filter(rng, i):
         a = [F(1)] + [rnd(rng) for _ in range(rng.randint(1, 2))]
     b = [rnd(rng, nz=(j == 0)) for j in range(rng.randint(1, len(a) + 1))]
     return b, a
+
+
+PAIRS = [(F(1), F(1)), (F(1, 3), F(2, 3)), (F(0), F(1)), (F(1, 2), F(1, 2)), (F(-1, 2), F(1, 2)), (F(3, 5), F(4, 5)),
+         (F(1), F(2)), (F(-1, 3), F(1, 3)), (F(1, 2), F(-3, 2))]
+REALS = [F(1, 2), F(-1, 2), F(1, 3), F(2, 3), F(-1, 3), F(3, 4), F(1), F(-1), F(2), F(-3, 2)]
+
+
+def gen_multi_pole(rng, i):
+    """H(z) with conjugate Gaussian-rational pole pairs of multiplicity up to 4, repeated real poles up to
+    multiplicity 5, simple poles and poles at 0.  Returns (b, a) in powers of 1/z and a factored string in z."""
+    while True:
+        b, a, Hs = _gen_multi_pole(rng, i)
+        if len(a) <= 9:
+            return b, a, Hs
+
+
+def _gen_multi_pole(rng, i):
+    cls = i % 6
+    facs = []        # (kind, params, multiplicity)
+    if cls in (0, 1, 2):
+        al, be = rng.choice(PAIRS)
+        facs.append(('pair', (al, be), [3, 4, 3][cls] if rng.random() < 0.8 else rng.randint(1, 2)))
+        if rng.random() < 0.5:
+            facs.append(('real', rng.choice(REALS), rng.randint(1, 2)))
+        if cls == 2 and rng.random() < 0.5:
+            al2, be2 = rng.choice([p for p in PAIRS if p != (al, be)])
+            facs.append(('pair', (al2, be2), rng.randint(1, 2)))
+    elif cls == 3:
+        facs.append(('real', rng.choice(REALS), rng.randint(3, 5)))
+        if rng.random() < 0.6:
+            facs.append(('real', rng.choice([r for r in REALS if r != facs[0][1]]), rng.randint(1, 3)))
+    elif cls == 4:
+        al, be = rng.choice(PAIRS)
+        facs.append(('pair', (al, be), rng.randint(2, 3)))
+        facs.append(('real', rng.choice(REALS), rng.randint(2, 4)))
+    else:
+        for p in rng.sample(REALS, rng.randint(1, 3)):
+            facs.append(('real', p, 1))
+        al, be = rng.choice(PAIRS)
+        facs.append(('pair', (al, be), rng.randint(1, 3)))
+    a = [F(1)]
+    den = []
+    for kind, par, mult in facs:
+        if kind == 'real':
+            q = [F(1), -par]
+            den.append('(z - (%s))**%d' % (fs(par), mult))
+        else:
+            al, be = par
+            q = [F(1), -2 * al, al * al + be * be]
+            den.append('(z**2 - (%s)*z + (%s))**%d' % (fs(2 * al), fs(al * al + be * be), mult))
+        for _ in range(mult):
+            a = pmul(a, q)
+    zero_poles = rng.choice([0, 0, 1, 2])                      # poles at z = 0: numerator longer than denominator in 1/z
+    nb = rng.randint(1, 3)
+    b = [F(0)] * rng.randint(0, 2) + [rnd(rng, nz=True)] + [rnd(rng) for _ in range(nb - 1)]
+    b = b + [F(0)] * max(0, len(a) + zero_poles - len(b)) if zero_poles else b
+    if zero_poles:
+        b[-1] = rnd(rng, nz=True)
+    # string: H = (sum b_i z^(L-i)) / (z^(L-deg a) * prod factors),  L = max(len) - 1
+    L = max(len(a), len(b)) - 1
+    num = poly_str(b + [F(0)] * (L + 1 - len(b)))
+    zpow = L - (len(a) - 1)
+    dstr = '*'.join(den) + ('*z**%d' % zpow if zpow else '')
+    return b, a, '(%s)/(%s)' % (num, dstr)
 
 
 # --- z-transform descriptors ----------------------------------------------------
@@ -557,7 +634,7 @@ def dft_sum(C, xs, N, k, inverse):
 
 # ------------------------------------------------------------------ Coq generation
 TABLES_HEADER = '''(* GENERATED by checks/c13.py from the translated table entries.  Do not edit. *)
-Require Import LT.FieldSec LT.SeqFilter LT.SeqDFT LT.SeqZ Gen.ZTableGen Gen.DFTTableGen.
+Require Import LT.FieldSec LT.SeqFilter LT.SeqDFT LT.SeqZ Gen.ZTableGen Gen.DFTTableGen Gen.IZTableGen.
 Local Open Scope F_scope.
 Section Obl.
 Variable K : fld.
@@ -569,7 +646,7 @@ Ltac ev := unfold pq_eval; cbn [zt_np zt_geos zt_steps zt_base fst snd]; unfold 
 TRIGMAP = {'cos_b': 'cb', 'sin_b': 'sb', 'cos_c': 'cc', 'sin_c': 'sc', 'sin_bmc': '(sb * cc - cb * sc)', 'cos_bmc': '(cb * cc + sb * sc)'}
 
 
-def gen_tables(zt, dt):
+def gen_tables(zt, dt, it=None):
     out = [TABLES_HEADER]
     names = []
 
@@ -605,6 +682,22 @@ def gen_tables(zt, dt):
         'intros W N n0 k c H. unfold dft_delta_q, dft. rewrite (sumn_single K N _ n0 H). '
         '- destruct (Nat.eq_dec n0 n0); [|congruence]. rewrite pw_mul. reflexivity. '
         '- intros i Hi Hne. destruct (Nat.eq_dec i n0); [contradiction|ring].')
+    # InverseZTransformer.ratfun: with bino = n (n-1) ... (n-i+2) (the loop `bino = 1; ...; bino *= n - i + 1`),
+    # the prefactor times p^n is the binomial sequence C(n, i-1) p^(n-i+1) of zt_binom
+    thm('gen_izt_pair_prefac',
+        'forall (lam : K) (n i : nat), lam <> 0 -> (1 <= i)%nat -> '
+        'izt_pair_prefac (ofnat (ffact n (i - 1))) lam i * pw lam n = gbin lam (i - 1) n',
+        'intros lam n i Hl Hi. unfold izt_pair_prefac. replace (1 - Z.of_nat i)%Z with (- Z.of_nat (i - 1))%Z by lia. '
+        'apply prefac_binom. exact Hl.')
+    thm('gen_izt_real_term',
+        'forall (r p : K) (n i : nat), p <> 0 -> (1 <= i)%nat -> '
+        'izt_real_term r (ofnat (ffact n (i - 1))) p i * pw p n = r * gbin p (i - 1) n',
+        'intros r p n i Hp Hi. rewrite <- (prefac_binom K p n (i - 1) Hp). unfold izt_real_term. '
+        'replace (1 - Z.of_nat i)%Z with (- Z.of_nat (i - 1))%Z by lia. field. apply fact_nz.')
+    thm('gen_izt_bino_step',
+        'forall n i : nat, (1 <= i <= n)%nat -> ffact n i = (ffact n (i - 1) * (n - i + 1))%nat',
+        'intros n i Hi. destruct i as [|j]; [lia|]. cbn [ffact]. replace (S j - 1)%nat with j by lia. '
+        'replace (n - S j + 1)%nat with (n - j)%nat by lia. reflexivity.')
     out.append('End Obl.\n')
     out.append('\n'.join('Print Assumptions %s.' % n for n in names))
     return '\n'.join(out) + '\n', names
@@ -664,6 +757,11 @@ def coq_case(c, r, extra):
         obs = [None if v is None else F(v) for v in r['vals']]
         return 'oeqb (response (K:=QcF) %s %s (deltaZ (K:=QcF)) (zeros (K:=QcF) %d) 0%%Z %d) %s' % (
             qlist(b), qlist(a), len(a) - 1, c['N'], qolist(obs))
+    if k == 'step':
+        b, a = [F(v) for v in c['b']], [F(v) for v in c['a']]
+        obs = [None if v is None else F(v) for v in r['vals']]
+        return 'oeqb (response (K:=QcF) %s %s (xoff 0%%Z %s) (zeros (K:=QcF) %d) 0%%Z %d) %s' % (
+            qlist(b), qlist(a), qlist([F(1)] * c['N']), len(a) - 1, c['N'], qolist(obs))
     if k == 'zic':
         b, a, ic, xic = ([F(v) for v in c[key]] for key in ('b', 'a', 'ic', 'xic'))
         w = 1 / F(c['z'])
@@ -827,6 +925,18 @@ def oracle(c, r):
             checked += 1
             if sum(ak * v for ak, v in zip(a, vals)) != (b[n] if n < len(b) else 0):
                 return False, 'A.H != B at coefficient %d' % n
+        return (True, '') if checked else (None, '')
+    if k == 'step':
+        b, a = [F(v) for v in c['b']], [F(v) for v in c['a']]
+        g = [None if v is None else F(v) for v in r['vals']]
+        checked = 0
+        for n in range(len(g)):
+            vals = [g[n - kk] if n - kk >= 0 else F(0) for kk in range(len(a))]
+            if any(v is None for v in vals):
+                continue
+            checked += 1
+            if sum(ak * v for ak, v in zip(a, vals)) != sum(b[l] for l in range(len(b)) if n - l >= 0):
+                return False, 'step response violates the difference equation at n=%d' % n
         return (True, '') if checked else (None, '')
     if k == 'zic':
         b, a, ic, xic = ([F(v) for v in c[key]] for key in ('b', 'a', 'ic', 'xic'))
@@ -1098,7 +1208,7 @@ def fingerprint(c, r):
         return ['DFTTransformer.term:' + '+'.join(sorted(set(t[0] for t in c['sig']))) + (':inverse' if c['inverse'] else '')]
     return ['%s' % {'response': 'DLTIFilter.response', 'tf': 'DLTIFilter.transfer_function', 'de': 'DLTIFilter.difference_equation',
                     'impulse': 'DLTIFilter.impulse_response', 'fromtf': 'DLTIFilter.from_transfer_function',
-                    'izt': 'InverseZTransformer.ratfun', 'seqdft': 'DiscreteTimeDomainSequence.DFT'}.get(k, k)]
+                    'izt': 'InverseZTransformer.ratfun', 'step': 'DLTIFilter.step_response', 'seqdft': 'DiscreteTimeDomainSequence.DFT'}.get(k, k)]
 
 
 def term_class(d):
@@ -1166,21 +1276,23 @@ def run(tier='quick', replay=None):
         texts = {}
         files = []
         # 1. translate
-        zt = dt = None
+        zt = dt = it = None
         try:
             with warnings.catch_warnings():
                 warnings.simplefilter('ignore')
                 zt = T.ZTable(core.REPO)
                 dt = T.DFTTable(core.REPO)
+                it = T.IZTable(core.REPO)
         except T.Untranslatable as e:
-            res.failed_obl.append(('translate', 'lcapy/ztransform.py|dft.py', str(e)))
+            res.failed_obl.append(('translate', 'lcapy/ztransform.py|dft.py|inverse_ztransform.py', str(e)))
             res.obligations += 1
-        if zt is not None and dt is not None:
+        if zt is not None and dt is not None and it is not None:
             texts['ZTableGen.v'] = zt.coq()
             texts['DFTTableGen.v'] = dt.coq()
-            for f in ('ZTableGen.v', 'DFTTableGen.v'):
+            texts['IZTableGen.v'] = it.coq()
+            for f in ('ZTableGen.v', 'DFTTableGen.v', 'IZTableGen.v'):
                 w.write(f, texts[f])
-            r0 = core.coqc_many(w.dir, ['ZTableGen.v', 'DFTTableGen.v'], timeout=300)
+            r0 = core.coqc_many(w.dir, ['ZTableGen.v', 'DFTTableGen.v', 'IZTableGen.v'], timeout=300)
             gen_ok = all(v[0] for v in r0.values())
             if not gen_ok:
                 for f, (ok, out, secs) in r0.items():
@@ -1188,7 +1300,7 @@ def run(tier='quick', replay=None):
                         res.failed_obl.append(('generated_definitions', f, out[-800:]))
                         res.obligations += 1
             else:
-                ttxt, tnames = gen_tables(zt, dt)
+                ttxt, tnames = gen_tables(zt, dt, it)
                 texts['C13_tables.v'] = ttxt
                 w.write('C13_tables.v', ttxt)
                 files.append('C13_tables.v')
@@ -1216,8 +1328,12 @@ def run(tier='quick', replay=None):
             cases = [replay['case']]
         else:
             cases = gen_cases(rng, tier)
+        import time as _t
+        _t0 = _t.time()
         results = core.run_impl('impl_dt.py', cases, hashseeds=[0])
+        _t1 = _t.time()
         th.join()
+        _t2 = _t.time()
         res.coq_results(w.dir, prove_out, dict((f, texts[f]) for f in files))
         res.extra['coq_seconds'] = dict((f, round(v[2], 1)) for f, v in prove_out.items())
 
@@ -1275,6 +1391,7 @@ def run(tier='quick', replay=None):
             else:
                 corr_fail += fl
         res.extra['traces_validated_against_impl'] = len(items)
+        res.extra['phase_seconds'] = {'impl_workers': round(_t1 - _t0, 1), 'wait_for_proofs': round(_t2 - _t1, 1), 'oracle_and_cases_eval': round(_t.time() - _t2, 1)}
         for i in sorted(set(corr_fail) | set(structs)):
             res.disagreements.append({'case': cases[i], 'lcapy': results[i], 'struct': structs.get(i)})
         res.rule = ('cases: generated from VERIF_SEED — filters with random rational b, a, inputs (list / Sequence with origin / impulse expression), '
@@ -1360,8 +1477,10 @@ def run(tier='quick', replay=None):
                 related = {'zt'}
             if name.startswith('gen_dft') or 'termXq' in msg or 'dft.py' in msg:
                 related |= {'exprdft', 'expridft'}
+            if name.startswith('gen_izt') or 'ratfun' in msg or 'pole' in msg:
+                related |= {'izt', 'impulse', 'step', 'ztrt'}
             if name in ('translate', 'generated_definitions') and not related:
-                related = {'zt', 'exprdft', 'expridft'}
+                related = {'zt', 'exprdft', 'expridft', 'izt', 'impulse', 'step', 'ztrt'}
             if related & failed_kinds:
                 res.notes.append('obligation %s broken; explained by the failing input(s) found for %s' % (name, sorted(related & failed_kinds)))
                 continue
